@@ -37,6 +37,17 @@ THEOREMS = [
     dict(name="Snow.C13.reused_object_fixed", clause="with the proposed repair of run() a raising run leaves nothing readable, whatever the history", strength="full"),
     dict(name="Snow.C13.reused_object_fixed_ok", clause="with the repair a completed run shows exactly its own results", strength="full"),
     dict(name="Snow.C13.nonvacuous", clause="a concrete completing run and a concrete run failing in solidification exist in the model", strength="nonvacuity"),
+    dict(name="Snow.S2D.solidLoop_eq", clause="2D: S2D.solidLoop is the generic iterIdx/firstHit fold", strength="full"),
+    dict(name="Snow.S2D.run_eq", clause="2D: S2D.run decomposed on the generic skeletons (which state every result field comes from, when it raises)", strength="full"),
+    dict(name="Snow.C13.complete_or_raise_2D", clause="2D: complete result or ValueError / IndexError", strength="full"),
+    dict(name="Snow.C13.tfr_eq_2D", clause="2D: t_fr = t_nuc + t_sol", strength="full"),
+    dict(name="Snow.C13.tsol_first_90_2D", clause="2D: t_sol = dt * (first solidification step with integrated frozen fraction >= 0.9), computed from that step's field", strength="full"),
+    dict(name="Snow.C13.times_within_2D", clause="2D: all times within [0, (n-1) dt]", strength="full"),
+    dict(name="Snow.C13.cool_inv_2D", clause="2D cooling stage: in-loop row index < 10 000; rows aligned with the programme", strength="full"),
+    dict(name="Snow.C13.solid_inv_2D", clause="2D solidification stage: in-loop row index < 10 000; rows aligned", strength="full"),
+    dict(name="Snow.C13.buffer_in_range_2D", clause="2D: IndexError iff the extra post-nucleation row meets a full cooling buffer", strength="full"),
+    dict(name="Snow.C13.history_aligned_2D", clause="2D: equal lengths i_save_end+1+(i_save-1), time = dt*step, shelfTemp = profile[step], steps non-decreasing", strength="full"),
+    dict(name="Snow.C13.time_nondecreasing_2D", clause="2D: time axis non-decreasing", strength="full"),
 ]
 TRUSTED = [
     "Lean 4.33 kernel; axioms per theorem listed under coverage.axioms",
@@ -44,7 +55,7 @@ TRUSTED = [
     "hand-written models SnowModel/Snowing0D.lean, Snowing1D.lean, SnowingRuns.lean tied to snowing.py by this "
     "differential check (single runs: all four arrays; object histories: exception class, results, array lengths)",
     "OperatingConditions.tempProfile is the programme (C05)",
-    "2D: no Lean model in this work package - covered by the predicates on real 2D runs only",
+    "2D model SnowModel/Snowing2D.lean (work package G), flags false = the repaired code in /repo; tied here by real 2D runs",
 ]
 ASSUMPTIONS = [
     "profile of Nt_exp samples (true for tempProfile, C05.profile_length); dt >= 0; Nrep = 1",
@@ -58,7 +69,7 @@ RULE = ("the 0D/1D/2D programmes of C08 (shared real runs), 1D processes with mo
 EXPLANATION = ("Lean theorems about the save-buffer invariants, the solidification fold and the object state machine + "
                "differential check against Snowing.run() and its accessors; the clauses re-evaluated on real outputs")
 PARALLEL = True
-LEVEL_TEXT = ('Lean 4 theorems about executable models of _run_0D, _run_1D and of the object fields across successive run() calls (exact real arithmetic), tied to /repo by a differential check (all four arrays of single runs; exception class, results and array lengths of object histories). Proved in full for 0D and 1D: complete result or exception (one run; fresh object: every accessor raises AssertionError after a failed run); t_fr = t_nuc + t_sol; t_sol = dt * (first solidification step with frozen fraction >= 0.9), the fraction being computed from the field saved for that step; all times within the process; equal lengths of the four histories (1D: i_save_end + 1 + (i_save - 1) rows), time = dt * step, shelfTemp = programme[step], rows in step order hence time non-decreasing; every in-loop buffer write in range, IndexError exactly when the extra post-nucleation row meets a full cooling buffer (explicit exception branch, reproduced on the real code). Refuted for a REUSED object: a run failing in the solidification stage after a completed one leaves new statistics with t_sol = None beside the old arrays (state-machine theorem + concrete model witness, replayed: K6); with the proposed repair of run() (fixes/K6.diff) the clause is proved for every object history. PARTIAL with respect to the quantifier: 2D has no theorem here; covered by the predicates on real 2D runs.')
+LEVEL_TEXT = ('Lean 4 theorems about executable models of _run_0D, _run_1D and of the object fields across successive run() calls (exact real arithmetic), tied to /repo by a differential check (all four arrays of single runs; exception class, results and array lengths of object histories). Proved in full for 0D and 1D: complete result or exception (one run; fresh object: every accessor raises AssertionError after a failed run); t_fr = t_nuc + t_sol; t_sol = dt * (first solidification step with frozen fraction >= 0.9), the fraction being computed from the field saved for that step; all times within the process; equal lengths of the four histories (1D: i_save_end + 1 + (i_save - 1) rows), time = dt * step, shelfTemp = programme[step], rows in step order hence time non-decreasing; every in-loop buffer write in range, IndexError exactly when the extra post-nucleation row meets a full cooling buffer (explicit exception branch, reproduced on the real code). Refuted for a REUSED object: a run failing in the solidification stage after a completed one leaves new statistics with t_sol = None beside the old arrays (state-machine theorem + concrete model witness, replayed: K6); with the proposed repair of run() (fixes/K6.diff) the clause is proved for every object history. The single-run clauses are proved for the 2D model as well (S2D.run returns a complete Result or an exception class; its loops are identified with the generic folds); real 2D runs are compared with it (exception class, results row, array lengths, time axis, shelf, thinned fields). PARTIAL: the object state machine (reused object) is stated for 0D/1D run outputs; for 2D the no-partial-data clause rests on complete_or_raise_2D together with the repaired run() (earlier outputs cleared), checked on real 2D runs.')
 
 
 ARRS = ("time", "shelfTemp", "temp", "iceMassFraction")
@@ -75,7 +86,11 @@ def _dt(case, const):
 
 def run_model(drv, case):
     if case["dim"] == "2D":
-        return None
+        prog = su.programs(case)[0]
+        m = su.model_2d(drv, case, prog, prog["Frand"] if prog.get("Frand") is not None else su.recorded_frand(0),
+                        out_stride=case.get("row_stride", 499))
+        m["is2D"] = True
+        return m
     rec = su.record_inputs(case)
     if rec.get("raise"):
         return {"raise": rec["raise"], "stage": "init"}
@@ -170,6 +185,16 @@ def compare(case, impl, model):
         return dis
     if impl.get("raise"):
         return [] if impl["raise"] == model.get("raise") else [f"init exception: impl {impl['raise']}"]
+    if model.get("is2D"):
+        run = impl["runs"][0]
+        dis = su.compare_2d(case, run, model, arrays=True)
+        if run["raise"] and not dis:
+            # a failed run on a fresh object: every accessor must raise (the model returns no result at all)
+            for nm in ("results",) + ARRS:
+                v = run["snap"][nm]
+                if not (isinstance(v, dict) and "raise" in v):
+                    dis.append(f"2D accessor {nm} readable after a run that raised")
+        return dis
     if case.get("Nrep"):
         return _cmp_table(case, impl, model)
     a = _impl_seq(impl)
@@ -509,7 +534,22 @@ def cases_nrep():
             dict(p0, t_tot=2500, start=10, rate=0.25, Nrep=2, kind="Nrep=2")]
 
 
+def cases_2d_short(tier):
+    """2D programmes too short for nucleation / for solidification (fresh object: every accessor must raise)"""
+    h = 0.05
+    dt2 = su.dt_2d_default(h, h)
+    base = dict(dim="2D", config="shelf", height=h, diameter=h, k_s0=2000, start=20, stop=-50, rate=0.5, holds=None,
+                cnTemp=None, Frand=0.5, kind="2D-too-short")
+    out = [dict(base, t_tot=120 * dt2), dict(base, t_tot=1500 * dt2)]
+    if tier != "quick":
+        out.append(dict(base, t_tot=9500 * dt2, config="jacket", kind="2D-jacket",
+                        yaml={"jacket": {"air_gap": 0.001, "lambda_air": 0.025}}))
+    return out
+
+
 def cases(rng, tier):
+    for c in cases_2d_short(tier):
+        yield c
     for c in cases_reprogram() + cases_nrep():
         yield c
     for c in cases_full_buffer():
